@@ -18,6 +18,7 @@ import Sigverif.Model.Grammar
 import Sigverif.Model.Discovery
 import Sigverif.Model.WrappersAttr
 import Sigverif.Model.ReadSig
+import Sigverif.Model.ReadSigText
 namespace SV.Proto
 
 def splitNE (s : String) (sep : String) : List String :=
@@ -484,6 +485,28 @@ def piecesOp : List String → Option String
       | .plain n a d => s!"p:{n}:{showOpt a}:{showOpt d}")) ",")
   | _ => none
 
+/-! ### `split(',')` and `re_paramname` on characters (Model/ReadSigText.lean); a text is its code points joined by `.` -/
+
+def parseText (s : String) : Option (List Char) :=
+  (if s = "_" then [] else s.splitOn ".").mapM (fun t => t.toNat?.map Char.ofNat)
+
+def showText (cs : List Char) : String :=
+  if cs.isEmpty then "e" else ".".intercalate (cs.map (fun c => toString c.toNat))
+
+def showOptText : Option (List Char) → String
+  | none => "-"
+  | some t => showText t
+
+def reSplitOp : List String → Option String
+  | t :: [] => do
+    let cs ← parseText t
+    let parts := splitParams cs
+    let showPart : Option (List Char × Option (List Char) × Option (List Char)) → String := fun
+      | none => "N"
+      | some (n, a, d) => showText n ++ "|" ++ showOptText a ++ "|" ++ showOptText d
+    some ("ok " ++ showList (parts.map showPart) ",")
+  | _ => none
+
 /-- one request line → one answer line -/
 def handle (line : String) : String :=
   let toks := (line.splitOn " ").filter (· ≠ "")
@@ -708,6 +731,7 @@ def handle (line : String) : String :=
       let (p, rest') ← parseProg rest
       if rest' ≠ [] then none else
       some (showRes (discovered own (resolveWith tbl pm) (some ((truth p).map (FwdCall.toRec p)))))
+    | "resplit" :: rest => reSplitOp rest       -- str.split(',') + re_paramname.match(...).groups() (Model/ReadSigText.lean)
     | "readsig" :: rest => readSigOp rest       -- support.read_sig on pieces (Model/ReadSig.lean)
     | "stext" :: rest => sTextOp rest           -- the parameters of support.s(text, …)
     | "pieces" :: rest => piecesOp rest         -- the native text of a signature, piece by piece
